@@ -317,9 +317,9 @@ def make_prior(kind, p, k, npts):
     if kind == "gaussian-sqrtcov":
         return D.Gaussian(lv, sqrtcov=pv, name="x"), real, []
     if kind == "gmrf":
-        return D.GMRF(lv, O.posscalar(k), bc_type="zero", order=1, name="x"), real, []
+        return O.pin_gmrf_constant(D.GMRF(lv, O.posscalar(k), bc_type="zero", order=1, name="x")), real, []
     if kind == "gmrf-neumann2":
-        return D.GMRF(lv, O.posscalar(k), bc_type="neumann", order=2 if p > 2 else 1, name="x"), real, []
+        return O.pin_gmrf_constant(D.GMRF(lv, O.posscalar(k), bc_type="neumann", order=2 if p > 2 else 1, name="x")), real, []
     if kind == "cmrf":
         return D.CMRF(np.zeros(p), [0.5, 2.0, 0.25][k], bc_type="zero", name="x"), real, []
     if kind == "cauchy":
